@@ -242,3 +242,489 @@ Theorem find_bin_completions_sound : forall x items C c,
   Forall (fun v => 0 < v) items -> In c (find_bin_completions x items C) ->
   sub_multiset c items = true /\ x + zsum c <= C.
 Proof. intros x items C c _. apply find_bin_completions_sound_gen. Qed.
+
+(** ---- 3. the search loops: unfolding ---- *)
+
+Notation nonzero := (fun v : Z => negb (v =? 0)).
+
+Lemma zid_eq x : zid x = x.
+Proof. reflexivity. Qed.
+
+Lemma map_zid l : map zid l = l.
+Proof. apply map_id. Qed.
+
+(** one round of the inner loop: the new bin, the items left, the queue of new branches *)
+Definition bc_round (keep : bool) (C : Z) (bestn : nat) (x : Z) (updated : list Z) (b : zbins)
+    (newbr : list branch) : bin Z * list Z * list branch :=
+  let cur := add_to_bin zid keep x empty_bin in
+  match find_bin_completions x updated C with
+  | [] => (cur, updated, newbr)
+  | c0 :: others =>
+      let brs := flat_map (fun c =>
+                    let ni := list_without updated c in
+                    let nb := b ++ [add_all keep cur c] in
+                    if plb_ge C (length nb) ni bestn then [] else [mk_branch ni nb]) others in
+      (add_all keep cur c0, list_without updated c0, newbr ++ brs)
+  end.
+
+Lemma bc_inner_S keep C f bestn x updated b newbr :
+  bc_inner keep C (S f) bestn (x :: updated) b newbr =
+  let '(cur', updated', newbr') := bc_round keep C bestn x updated b newbr in
+  if plb_ge C (length (b ++ [cur'])) updated' bestn then (updated', b ++ [cur'], newbr')
+  else bc_inner keep C f bestn updated' (b ++ [cur']) newbr'.
+Proof.
+  unfold bc_round. cbn [bc_inner]. destruct (find_bin_completions x updated C); reflexivity.
+Qed.
+
+Lemma bc_inner_nil keep C fuel bestn b newbr :
+  bc_inner keep C fuel bestn [] b newbr = ([], b, newbr).
+Proof. destruct fuel; reflexivity. Qed.
+
+Lemma bc_outer_S keep C f lb cb q best :
+  bc_outer keep C (S f) lb (cb :: q) best =
+  let '(items', b', newbr) :=
+    bc_inner keep C (length (br_items cb)) (length best) (br_items cb) (br_bins cb) [] in
+  let best' := match items' with
+               | [] => if Nat.ltb (length b') (length best) then b' else best
+               | _ => best
+               end in
+  if Z.of_nat (length best') =? lb then Ok best' else bc_outer keep C f lb (q ++ newbr) best'.
+Proof. reflexivity. Qed.
+
+Lemma add_all_true c : forall b, add_all true b c = (fst b + zsum c, snd b ++ c).
+Proof.
+  induction c as [|x t IH]; intros b; unfold add_all; cbn [fold_left].
+  - rewrite pk_zsum_nil, Z.add_0_r, app_nil_r. destruct b; reflexivity.
+  - fold (add_all true (add_to_bin zid true x b) t). rewrite IH. unfold add_to_bin. cbn [fst snd].
+    rewrite pk_zsum_cons, zid_eq, <- app_assoc. cbn [app]. f_equal. lia.
+Qed.
+
+Lemma add_all_false c : forall b, add_all false b c = (fst b + zsum c, snd b).
+Proof.
+  induction c as [|x t IH]; intros b; unfold add_all; cbn [fold_left].
+  - rewrite pk_zsum_nil, Z.add_0_r. destruct b; reflexivity.
+  - fold (add_all false (add_to_bin zid false x b) t). rewrite IH. unfold add_to_bin. cbn [fst snd].
+    rewrite pk_zsum_cons, zid_eq. f_equal. lia.
+Qed.
+
+(** ---- 4. the branch invariant (keep = true) ---- *)
+
+(** a branch: well-formed feasible non-empty bins which, with the items left, make up [vs] *)
+Definition br_ok (C : Z) (vs : list Z) (items : list Z) (b : zbins) : Prop :=
+  wf zid b /\ feasible C b /\ all_nonempty b /\ Permutation (contents b ++ items) vs.
+
+Definition brs_ok (C : Z) (vs : list Z) (l : list branch) : Prop :=
+  Forall (fun br => br_ok C vs (br_items br) (br_bins br)) l.
+
+(** a round moves x and a fitting sub-multiset c of the other items into a new bin *)
+Lemma br_ok_step C vs x updated b c :
+  br_ok C vs (x :: updated) b -> sub_multiset c updated = true -> x + zsum c <= C ->
+  br_ok C vs (list_without updated c) (b ++ [add_all true (add_to_bin zid true x empty_bin) c]).
+Proof.
+  intros (Hw & Hf & Hne & HP) Hsub Hfit. rewrite add_all_true.
+  unfold add_to_bin, empty_bin. cbn [fst snd app]. rewrite ?zid_eq.
+  unfold br_ok, wf, feasible, all_nonempty. repeat split.
+  - apply Forall_app. split; [exact Hw|]. constructor; [|constructor].
+    unfold wf_bin. cbn [fst snd]. rewrite map_zid, pk_zsum_cons. unfold zid. lia.
+  - apply Forall_app. split; [exact Hf|]. constructor; [|constructor]. cbn [fst]. unfold zid. lia.
+  - apply Forall_app. split; [exact Hne|]. constructor; [|constructor]. cbn [snd]. discriminate.
+  - rewrite contents_snoc. cbn [snd].
+    pose proof (list_without_perm c updated Hsub) as HL.
+    apply Permutation_trans with (contents b ++ x :: updated); [|exact HP].
+    apply Permutation_trans with (contents b ++ x :: c ++ list_without updated c); [perm_solve|].
+    apply Permutation_app_head. apply perm_skip. exact HL.
+Qed.
+
+Lemma bc_round_ok C vs bestn x updated b newbr cur' updated' newbr' :
+  x <= C -> br_ok C vs (x :: updated) b -> brs_ok C vs newbr ->
+  bc_round true C bestn x updated b newbr = (cur', updated', newbr') ->
+  br_ok C vs updated' (b ++ [cur']) /\ brs_ok C vs newbr'.
+Proof.
+  intros Hx Hok Hbrs H. unfold bc_round in H.
+  destruct (find_bin_completions x updated C) as [|c0 others] eqn:Ec; cbv beta iota zeta in H.
+  - injection H as E1 E2 E3. subst cur' updated' newbr'. split; [|exact Hbrs].
+    apply (br_ok_step C vs x updated b []); [exact Hok|reflexivity|].
+    rewrite pk_zsum_nil. lia.
+  - injection H as E1 E2 E3. subst cur' updated' newbr'.
+    assert (Hsound : forall c, In c (c0 :: others) -> sub_multiset c updated = true /\ x + zsum c <= C).
+    { intros c Hc. apply find_bin_completions_sound_gen. rewrite Ec. exact Hc. }
+    split.
+    + destruct (Hsound c0 (or_introl eq_refl)) as [H1 H2]. apply br_ok_step; assumption.
+    + apply Forall_app. split; [exact Hbrs|]. apply Forall_forall. intros br Hbr.
+      apply in_flat_map in Hbr. destruct Hbr as (c & Hc & Hbr).
+      destruct (Hsound c (or_intror Hc)) as [H1 H2].
+      destruct (plb_ge C _ _ bestn); [destruct Hbr|].
+      destruct Hbr as [Hbr|Hbr]; [|destruct Hbr]. subst br. cbn [br_items br_bins].
+      apply br_ok_step; assumption.
+Qed.
+
+Lemma br_ok_head_le C vs x updated b :
+  Forall (fun v => v <= C) vs -> br_ok C vs (x :: updated) b -> x <= C.
+Proof.
+  intros Hle (_ & _ & _ & HP). rewrite Forall_forall in Hle. apply Hle.
+  eapply Permutation_in; [exact HP|]. apply in_or_app. right. left. reflexivity.
+Qed.
+
+Lemma bc_inner_ok C vs bestn : Forall (fun v => v <= C) vs ->
+  forall fuel items b newbr items' b' newbr',
+  bc_inner true C fuel bestn items b newbr = (items', b', newbr') ->
+  br_ok C vs items b -> brs_ok C vs newbr ->
+  br_ok C vs items' b' /\ brs_ok C vs newbr'.
+Proof.
+  intros Hle. induction fuel as [|f IH]; intros items b newbr items' b' newbr' H Hok Hbrs.
+  - cbn [bc_inner] in H. injection H as E1 E2 E3. subst. split; assumption.
+  - destruct items as [|x updated].
+    + rewrite bc_inner_nil in H. injection H as E1 E2 E3. subst. split; assumption.
+    + rewrite bc_inner_S in H.
+      destruct (bc_round true C bestn x updated b newbr) as [[cur1 upd1] nb1] eqn:ER.
+      pose proof (br_ok_head_le C vs x updated b Hle Hok) as Hx.
+      destruct (bc_round_ok C vs bestn x updated b newbr cur1 upd1 nb1 Hx Hok Hbrs ER) as [Hok1 Hbrs1].
+      destruct (plb_ge C (length (b ++ [cur1])) upd1 bestn).
+      * injection H as E1 E2 E3. subst. split; assumption.
+      * apply (IH _ _ _ _ _ _ H Hok1 Hbrs1).
+Qed.
+
+(** the incumbent is returned, or replaced by a complete branch with strictly fewer bins *)
+Lemma bc_outer_result C vs lb : Forall (fun v => v <= C) vs ->
+  forall fuel queue best r,
+  bc_outer true C fuel lb queue best = Ok r -> brs_ok C vs queue ->
+  r = best \/ (br_ok C vs [] r /\ (length r < length best)%nat).
+Proof.
+  intros Hle. induction fuel as [|f IH]; intros queue best r H Hq; [discriminate H|].
+  destruct queue as [|cb q].
+  - cbn [bc_outer] in H. injection H as E. left. symmetry. exact E.
+  - rewrite bc_outer_S in H.
+    destruct (bc_inner true C (length (br_items cb)) (length best) (br_items cb) (br_bins cb) [])
+      as [[items1 b1] newbr] eqn:EI.
+    inversion Hq as [|cb' q' Hcb Hq']; subst cb' q'.
+    destruct (bc_inner_ok C vs (length best) Hle _ _ _ _ _ _ _ EI Hcb (Forall_nil _)) as [Hok1 Hbrs1].
+    cbv zeta in H.
+    set (best1 := match items1 with
+                  | [] => if Nat.ltb (length b1) (length best) then b1 else best
+                  | _ :: _ => best
+                  end) in H.
+    assert (Hbest1 : best1 = best \/ (br_ok C vs [] best1 /\ (length best1 < length best)%nat)).
+    { subst best1. destruct items1 as [|i1 it1]; [|left; reflexivity].
+      destruct (Nat.ltb (length b1) (length best)) eqn:E; [|left; reflexivity].
+      right. split; [exact Hok1|]. apply Nat.ltb_lt. exact E. }
+    destruct (Z.of_nat (length best1) =? lb).
+    + injection H as E. subst r. exact Hbest1.
+    + apply IH in H.
+      * destruct H as [E|[H1 H2]]; [subst r; exact Hbest1|]. right. split; [exact H1|].
+        destruct Hbest1 as [E|[_ H3]]; [rewrite <- E; exact H2|lia].
+      * apply Forall_app. split; assumption.
+Qed.
+
+Lemma existsb_oversize C items :
+  existsb (fun v => C <? v) items = true <-> Exists (fun v => C < v) items.
+Proof.
+  rewrite existsb_exists, Exists_exists. split; intros (v & Hv & H); exists v; split; auto; lia.
+Qed.
+
+Lemma no_oversize_Forall C items :
+  existsb (fun v => C <? v) items = false -> Forall (fun v => v <= C) items.
+Proof.
+  intros H. apply Forall_forall. intros v Hv.
+  destruct (Z_le_gt_dec v C) as [Hle|Hgt]; [exact Hle|]. exfalso.
+  assert (E : existsb (fun v => C <? v) items = true).
+  { apply existsb_exists. exists v. split; [exact Hv|lia]. }
+  congruence.
+Qed.
+
+(** what a successful run returns *)
+Lemma bc_result C fuel items b :
+  bin_completion true C fuel items = Ok b ->
+  Forall (fun v => v <= C) items /\
+  exists bfd, best_fit_decreasing zid true C (filter nonzero items) = Ok bfd /\
+    (b = bfd \/ (br_ok C (filter nonzero items) [] b /\ (length b < length bfd)%nat)).
+Proof.
+  intros H. unfold bin_completion in H.
+  destruct (existsb (fun v => C <? v) items) eqn:Eo; [discriminate H|].
+  pose proof (no_oversize_Forall C items Eo) as Hle. split; [exact Hle|].
+  destruct (best_fit_decreasing zid true C (filter nonzero items)) as [bfd|e] eqn:EB; [|discriminate H].
+  exists bfd. split; [reflexivity|].
+  destruct (Z.of_nat (length bfd) =? _).
+  - injection H as E. left. symmetry. exact E.
+  - apply (bc_outer_result C (filter nonzero items)) in H; [exact H| |].
+    + apply Forall_forall. intros v Hv. apply filter_In in Hv. destruct Hv as [Hv _].
+      rewrite Forall_forall in Hle. apply Hle. exact Hv.
+    + constructor; [|constructor]. cbn [br_items br_bins].
+      unfold br_ok, wf, feasible, all_nonempty. repeat split; try constructor.
+      change (contents (@nil (bin Z))) with (@nil Z). cbn [app]. apply sort_desc_perm.
+Qed.
+
+(** ---- 5. C03: a feasible packing of exactly the non-zero items, no empty bin ---- *)
+
+Lemma br_ok_packing C vs b : br_ok C vs [] b -> is_packing zid C vs b.
+Proof.
+  intros (Hw & Hf & _ & HP). rewrite app_nil_r in HP. unfold is_packing. auto.
+Qed.
+
+Theorem bc_packing : forall C fuel items b,
+  0 < C -> Forall (fun v => 0 <= v) items ->
+  bin_completion true C fuel items = Ok b ->
+  is_packing zid C (filter nonzero items) b.
+Proof.
+  intros C fuel items b HC Hnn H. destruct (bc_result C fuel items b H) as (_ & bfd & EB & Hr).
+  destruct Hr as [E|[Hok _]]; [|apply br_ok_packing; exact Hok]. subst b.
+  apply bfd_packing; [intros _; lia| |exact EB].
+  apply Forall_forall. intros v Hv. apply filter_In in Hv. destruct Hv as [Hv _].
+  rewrite Forall_forall in Hnn. unfold zid. apply Hnn. exact Hv.
+Qed.
+
+Theorem bc_nonempty : forall C fuel items b,
+  0 < C -> Forall (fun v => 0 <= v) items ->
+  bin_completion true C fuel items = Ok b ->
+  filter nonzero items <> [] -> all_nonempty b.
+Proof.
+  intros C fuel items b HC Hnn H Hne. destruct (bc_result C fuel items b H) as (_ & bfd & EB & Hr).
+  destruct Hr as [E|[(_ & _ & Hr & _) _]]; [|exact Hr]. subst b.
+  apply (bfd_nonempty zid C (filter nonzero items)); [exact Hne| |exact EB].
+  apply Forall_forall. intros v Hv. apply filter_In in Hv. destruct Hv as [Hv _].
+  rewrite Forall_forall in Hnn. unfold zid. apply Hnn. exact Hv.
+Qed.
+
+(** with no non-zero item the search returns zero bins (not BFD's single empty bin), so the
+    hypotheses [0 < C] and [filter nonzero items <> []] are in fact not needed *)
+Lemma bc_all_zero C fuel items b :
+  filter nonzero items = [] -> bin_completion true C fuel items = Ok b -> b = [].
+Proof.
+  intros E H. unfold bin_completion in H.
+  destruct (existsb (fun v => C <? v) items); [discriminate H|]. rewrite E in H.
+  change (best_fit_decreasing zid true C []) with (@Ok (bins Z) [(0, [])]) in H.
+  cbv beta iota zeta in H.
+  assert (Elb : (if C =? 0 then 0 else cdiv (zsum []) C) = 0).
+  { destruct (C =? 0); [reflexivity|]. unfold cdiv. rewrite pk_zsum_nil. cbn [Z.opp].
+    rewrite Zdiv_0_l. reflexivity. }
+  rewrite Elb in H. cbn [length Z.of_nat Z.eqb] in H.
+  destruct fuel as [|f]; [discriminate H|].
+  cbn in H. injection H as H. symmetry. exact H.
+Qed.
+
+Theorem bc_packing_strong : forall C fuel items b,
+  Forall (fun v => 0 <= v) items ->
+  bin_completion true C fuel items = Ok b ->
+  is_packing zid C (filter nonzero items) b /\ all_nonempty b.
+Proof.
+  intros C fuel items b Hnn H.
+  destruct (filter nonzero items) as [|v0 vt] eqn:E.
+  - rewrite (bc_all_zero C fuel items b E H). unfold is_packing, feasible, wf, all_nonempty.
+    repeat split; constructor.
+  - rewrite <- E. assert (Hne : filter nonzero items <> []) by (rewrite E; discriminate).
+    assert (HC : 0 < C).
+    { destruct (bc_result C fuel items b H) as (Hle & _).
+      assert (Hin : In v0 (filter nonzero items)) by (rewrite E; left; reflexivity).
+      apply filter_In in Hin. destruct Hin as [Hin Hnz].
+      rewrite Forall_forall in Hle, Hnn. specialize (Hle v0 Hin). specialize (Hnn v0 Hin). lia. }
+    split; [apply (bc_packing C fuel)|apply (bc_nonempty C fuel items)]; assumption.
+Qed.
+
+(** ---- 6. C19: refusal ---- *)
+
+Theorem bc_rejects_oversize : forall keep C fuel items,
+  Exists (fun v => C < v) items -> bin_completion keep C fuel items = Err ValueError.
+Proof.
+  intros keep C fuel items H. unfold bin_completion.
+  apply existsb_oversize in H. rewrite H. reflexivity.
+Qed.
+
+Lemma bc_outer_err keep C lb : forall fuel queue best e,
+  bc_outer keep C fuel lb queue best = Err e -> e = OtherError.
+Proof.
+  induction fuel as [|f IH]; intros queue best e H.
+  - cbn [bc_outer] in H. injection H as E. symmetry. exact E.
+  - destruct queue as [|cb q]; [discriminate H|]. rewrite bc_outer_S in H.
+    destruct (bc_inner keep C (length (br_items cb)) (length best) (br_items cb) (br_bins cb) [])
+      as [[items1 b1] newbr].
+    cbv zeta in H. destruct (Z.of_nat _ =? lb); [discriminate H|].
+    apply (IH _ _ _ H).
+Qed.
+
+(** the only errors: ValueError exactly for an oversize item, OtherError only for lack of fuel *)
+Theorem bc_error_kinds : forall keep C fuel items e,
+  bin_completion keep C fuel items = Err e ->
+  (e = ValueError /\ Exists (fun v => C < v) items) \/
+  (e = OtherError /\ ~ Exists (fun v => C < v) items).
+Proof.
+  intros keep C fuel items e H. unfold bin_completion in H.
+  destruct (existsb (fun v => C <? v) items) eqn:Eo.
+  - left. injection H as E. split; [symmetry; exact E|]. apply existsb_oversize. exact Eo.
+  - assert (Hno : ~ Exists (fun v => C < v) items).
+    { intros Hex. apply existsb_oversize in Hex. congruence. }
+    right. split; [|exact Hno].
+    destruct (best_fit_decreasing zid keep C (filter nonzero items)) as [bfd|e'] eqn:EB.
+    + destruct (Z.of_nat (length bfd) =? _); [discriminate H|].
+      apply (bc_outer_err _ _ _ _ _ _ _ H).
+    + exfalso. apply Hno.
+      assert (Hex : Exists (fun x => C < zid x) (filter nonzero items)).
+      { apply (bfd_error_iff_gen zid keep). exists e'. exact EB. }
+      apply Exists_exists in Hex. destruct Hex as (v & Hv & Hlt). apply filter_In in Hv.
+      apply Exists_exists. exists v. split; [apply Hv|exact Hlt].
+Qed.
+
+(** a run with enough fuel on admissible items succeeds *)
+Corollary bc_error_iff : forall keep C fuel items,
+  bin_completion keep C fuel items = Err ValueError <-> Exists (fun v => C < v) items.
+Proof.
+  intros keep C fuel items. split; [|apply bc_rejects_oversize].
+  intros H. apply bc_error_kinds in H. destruct H as [[_ H]|[H _]]; [exact H|discriminate H].
+Qed.
+
+(** ---- 7. C04 (partial): bin counts ---- *)
+
+Theorem bc_le_bfd : forall C fuel items b bfd,
+  bin_completion true C fuel items = Ok b ->
+  best_fit_decreasing zid true C (filter nonzero items) = Ok bfd ->
+  (length b <= length bfd)%nat.
+Proof.
+  intros C fuel items b bfd H EB. destruct (bc_result C fuel items b H) as (_ & bfd' & EB' & Hr).
+  rewrite EB in EB'. injection EB' as E. subst bfd'.
+  destruct Hr as [E|[_ Hlt]]; [subst b; apply Nat.le_refl|lia].
+Qed.
+
+(** a feasible packing witnesses [Packable] *)
+Lemma packing_packable C vs (b : bins Z) : is_packing zid C vs b -> Packable C vs (length b).
+Proof.
+  intros (HP & Hf & Hw). exists (sums b). split.
+  - apply (Attainable_perm _ (map zid (contents b))); [rewrite map_zid; exact HP|].
+    apply Attainable_pairs. exact (bins_attainable zid b Hw).
+  - unfold sums. rewrite Forall_map. exact Hf.
+Qed.
+
+Theorem bc_packable : forall C fuel items b,
+  Forall (fun v => 0 <= v) items ->
+  bin_completion true C fuel items = Ok b ->
+  Packable C (filter nonzero items) (length b).
+Proof.
+  intros C fuel items b Hnn H. apply packing_packable.
+  apply (bc_packing_strong C fuel items b Hnn H).
+Qed.
+
+Theorem bc_ge_opt : forall C fuel items b n,
+  Forall (fun v => 0 <= v) items ->
+  bin_completion true C fuel items = Ok b ->
+  MinBins C (filter nonzero items) n -> (n <= length b)%nat.
+Proof.
+  intros C fuel items b n Hnn H [_ Hmin]. apply Hmin. apply (bc_packable C fuel); assumption.
+Qed.
+
+(** the volume bound ceil(sum / C) is a lower bound on the bin count of every feasible packing *)
+Theorem bc_lb_sound : forall C vs n,
+  0 < C -> Packable C vs n -> cdiv (zsum vs) C <= Z.of_nat n.
+Proof.
+  intros C vs n HC Hp. apply packable_total in Hp. unfold cdiv.
+  assert (H : - Z.of_nat n <= (- zsum vs) / C) by (apply Z.div_le_lower_bound; [exact HC|nia]).
+  lia.
+Qed.
+
+(** the early exits return [lb] bins: an answer that meets the volume bound is optimal *)
+Theorem bc_exit_at_lb_optimal : forall C fuel items b,
+  0 < C -> Forall (fun v => 0 <= v) items ->
+  bin_completion true C fuel items = Ok b ->
+  length b = Z.to_nat (cdiv (zsum (filter nonzero items)) C) ->
+  MinBins C (filter nonzero items) (length b).
+Proof.
+  intros C fuel items b HC Hnn H Hlen. split; [apply (bc_packable C fuel); assumption|].
+  intros m Hm. apply (bc_lb_sound C _ m HC) in Hm. lia.
+Qed.
+
+(** the first exit: when BFD meets the volume bound it is returned as is *)
+Theorem bc_bfd_exit : forall keep C fuel items bfd,
+  ~ Exists (fun v => C < v) items -> C <> 0 ->
+  best_fit_decreasing zid keep C (filter nonzero items) = Ok bfd ->
+  Z.of_nat (length bfd) = cdiv (zsum (filter nonzero items)) C ->
+  bin_completion keep C fuel items = Ok bfd.
+Proof.
+  intros keep C fuel items bfd Hno HC EB Hlb. unfold bin_completion.
+  destruct (existsb (fun v => C <? v) items) eqn:Eo.
+  - exfalso. apply Hno. apply existsb_oversize. exact Eo.
+  - rewrite EB. destruct (C =? 0) eqn:E0; [lia|]. rewrite Hlb, Z.eqb_refl. reflexivity.
+Qed.
+
+(** full optimality: stated for visibility, not proved (the completion generator is ad hoc) *)
+Definition bc_optimal_statement : Prop :=
+  forall C fuel items b, 0 < C -> Forall (fun v => 0 <= v) items ->
+    bin_completion true C fuel items = Ok b ->
+    MinBins C (filter nonzero items) (length b).
+
+(** ---- 8. C06: the sums-only run ---- *)
+
+Definition ebr (br : branch) : branch := mk_branch (br_items br) (erase (br_bins br)).
+
+Lemma erase_snoc (b : zbins) (c : bin Z) : erase (b ++ [c]) = erase b ++ [(fst c, [])].
+Proof. unfold erase. rewrite map_app. reflexivity. Qed.
+
+Lemma add_all_erase (cur : bin Z) c : add_all false (fst cur, []) c = (fst (add_all true cur c), []).
+Proof. rewrite add_all_true, add_all_false. reflexivity. Qed.
+
+Lemma bc_round_erase C bestn x updated b newbr :
+  bc_round false C bestn x updated (erase b) (map ebr newbr) =
+  let '(cur', upd', nb') := bc_round true C bestn x updated b newbr in
+  ((fst cur', []), upd', map ebr nb').
+Proof.
+  unfold bc_round. destruct (find_bin_completions x updated C) as [|c0 others]; [reflexivity|].
+  cbv zeta.
+  change (add_to_bin zid false x empty_bin) with (fst (add_to_bin zid true x empty_bin), @nil Z).
+  rewrite add_all_erase, map_app. f_equal. f_equal.
+  induction others as [|c t IH]; [reflexivity|]. cbn [flat_map]. rewrite map_app, <- IH. f_equal.
+  rewrite add_all_erase, <- erase_snoc, erase_length.
+  destruct (plb_ge C _ _ bestn); reflexivity.
+Qed.
+
+Lemma bc_inner_erase C bestn : forall fuel items b newbr,
+  bc_inner false C fuel bestn items (erase b) (map ebr newbr) =
+  let '(i, b', n) := bc_inner true C fuel bestn items b newbr in (i, erase b', map ebr n).
+Proof.
+  induction fuel as [|f IH]; intros items b newbr; [reflexivity|].
+  destruct items as [|x updated]; [reflexivity|].
+  rewrite !bc_inner_S, bc_round_erase.
+  destruct (bc_round true C bestn x updated b newbr) as [[cur1 upd1] nb1].
+  rewrite <- erase_snoc, erase_length.
+  destruct (plb_ge C (length (b ++ [cur1])) upd1 bestn); [reflexivity|]. apply IH.
+Qed.
+
+Lemma bc_outer_erase C lb : forall fuel queue best,
+  bc_outer false C fuel lb (map ebr queue) (erase best) = rmap erase (bc_outer true C fuel lb queue best).
+Proof.
+  induction fuel as [|f IH]; intros queue best; [reflexivity|].
+  destruct queue as [|cb q]; [reflexivity|]. cbn [map]. rewrite !bc_outer_S.
+  change (br_items (ebr cb)) with (br_items cb). change (br_bins (ebr cb)) with (erase (br_bins cb)).
+  rewrite erase_length.
+  pose proof (bc_inner_erase C (length best) (length (br_items cb)) (br_items cb) (br_bins cb) []) as HI.
+  cbn [map] in HI. rewrite HI.
+  destruct (bc_inner true C (length (br_items cb)) (length best) (br_items cb) (br_bins cb) [])
+    as [[items1 b1] newbr].
+  cbv zeta. rewrite erase_length.
+  destruct items1 as [|i1 it1]; [destruct (Nat.ltb (length b1) (length best))|];
+    rewrite erase_length; (destruct (Z.of_nat _ =? lb); [reflexivity|]);
+    rewrite <- map_app; apply IH.
+Qed.
+
+Theorem bc_erase : forall C fuel items,
+  rmap erase (bin_completion true C fuel items) = bin_completion false C fuel items.
+Proof.
+  intros C fuel items. unfold bin_completion.
+  destruct (existsb (fun v => C <? v) items); [reflexivity|].
+  rewrite <- (bfd_erase zid C (filter nonzero items)).
+  destruct (best_fit_decreasing zid true C (filter nonzero items)) as [bfd|e]; [|reflexivity].
+  cbn [rmap]. rewrite erase_length.
+  destruct (Z.of_nat (length bfd) =? _); [reflexivity|].
+  symmetry. apply (bc_outer_erase C _ fuel [mk_branch (sort_desc zid (filter nonzero items)) []] bfd).
+Qed.
+
+Print Assumptions sub_multiset_spec.
+Print Assumptions find_bin_completions_sound.
+Print Assumptions find_bin_completions_sound_gen.
+Print Assumptions bc_packing.
+Print Assumptions bc_nonempty.
+Print Assumptions bc_packing_strong.
+Print Assumptions bc_rejects_oversize.
+Print Assumptions bc_error_kinds.
+Print Assumptions bc_error_iff.
+Print Assumptions bc_le_bfd.
+Print Assumptions bc_packable.
+Print Assumptions bc_ge_opt.
+Print Assumptions bc_lb_sound.
+Print Assumptions bc_exit_at_lb_optimal.
+Print Assumptions bc_bfd_exit.
+Print Assumptions bc_erase.
